@@ -23,8 +23,40 @@ fn main() {
         "check" => {
             let prop = args.get(2).cloned().unwrap_or_else(|| usage());
             let tier = arg_val(&args, "--tier").or_else(|| std::env::var("VERIF_TIER").ok()).unwrap_or_else(|| "quick".into());
-            let code = check_engine_a(&prop, &tier, seed, workers, &args);
+            if let Err(f) = mssim::vm_selftest::run_selftests() {
+                for l in f {
+                    println!("R1 SELF-TEST FAILED: {}", l);
+                }
+                std::process::exit(2);
+            }
+            let code = match prop.as_str() {
+                "C10" => check_c10(&tier, seed, workers, &args),
+                "C11" => check_c11(&tier, seed, workers, &args),
+                _ => check_engine_a(&prop, &tier, seed, workers, &args),
+            };
             std::process::exit(code);
+        }
+        "faultio-worker" => {
+            let shard: u64 = arg_val(&args, "--shard").and_then(|s| s.parse().ok()).unwrap_or(0);
+            let count: u64 = arg_val(&args, "--count").and_then(|s| s.parse().ok()).unwrap_or(1000);
+            let trace = args.iter().any(|a| a == "--trace");
+            std::process::exit(mssim::faultio::worker(seed, shard, count, trace));
+        }
+        "faultio-case" => {
+            let h = args.get(2).cloned().unwrap_or_default();
+            match mssim::faultio::case_from_hex(&h) {
+                Some(c) => {
+                    let r = std::panic::catch_unwind(|| mssim::faultio::wire_exec(&c));
+                    match r {
+                        Ok(_) => std::process::exit(0),
+                        Err(_) => {
+                            println!("panic");
+                            std::process::exit(101);
+                        }
+                    }
+                }
+                None => std::process::exit(2),
+            }
         }
         "selftest" => match mssim::vm_selftest::run_selftests() {
             Ok(n) => {
@@ -40,6 +72,13 @@ fn main() {
         },
         "replay" => {
             let path = args.get(2).cloned().unwrap_or_else(|| usage());
+            if let Ok(txt) = std::fs::read_to_string(&path) {
+                if let Ok(v) = serde_json::from_str::<serde_json::Value>(&txt) {
+                    if v["engine"].as_str() == Some("faultio") {
+                        std::process::exit(replay_faultio(&v, &path));
+                    }
+                }
+            }
             match replay_file(&path, None) {
                 Ok((prop, Some(v), class)) => {
                     println!("replayed: property={} invariant={} class={} actor={} t={} seq={}\n  {}", prop, v.inv, v.class, v.actor, v.time, v.seq, v.detail);
@@ -209,4 +248,289 @@ fn merge(a: &mut Agg, b: Agg) {
     for (k, v) in b.by_source {
         *a.by_source.entry(k).or_insert(0) += v;
     }
+}
+
+fn replay_faultio(v: &serde_json::Value, path: &str) -> i32 {
+    let prop = v["property"].as_str().unwrap_or("C11").to_string();
+    if let Some(h) = v["case"].as_str() {
+        // re-execute the single input in a child process so that aborts and hangs are observable
+        let exe = std::env::current_exe().unwrap();
+        let out = std::process::Command::new("sh")
+            .arg("-c")
+            .arg(format!("ulimit -v 4000000; exec timeout 20 {} faultio-case '{}'", exe.display(), h))
+            .output();
+        match out {
+            Ok(o) if o.status.success() => {
+                println!("replay of {} produced no violation", path);
+                0
+            }
+            Ok(o) => {
+                println!("replayed: child exit {:?}: {}", o.status.code(), String::from_utf8_lossy(&o.stdout).lines().last().unwrap_or(""));
+                println!("VIOLATION property={} replay={}", prop, path);
+                1
+            }
+            Err(e) => {
+                eprintln!("replay error: {}", e);
+                2
+            }
+        }
+    } else if let (Some(kind), Some(text)) = (v["kind"].as_str(), v["input"].as_str()) {
+        // C10 storage case: re-run the deterministic storage run that found it
+        let run = v["run"].as_u64().unwrap_or(0);
+        let seed = v["seed"].as_u64().unwrap_or(1);
+        let mut res = new_storage_result();
+        mssim::faultio::storage_run(seed, run, v["doubles"].as_u64().unwrap_or(200), &mut res);
+        let _ = (kind, text);
+        match res.violation {
+            Some((c, d)) => {
+                println!("replayed: {} {}", c, d);
+                println!("VIOLATION property={} replay={}", prop, path);
+                1
+            }
+            None => {
+                println!("replay of {} produced no violation", path);
+                0
+            }
+        }
+    } else {
+        2
+    }
+}
+
+fn new_storage_result() -> mssim::faultio::StorageResult {
+    mssim::faultio::StorageResult { objects: 0, roundtrips: 0, corrupted_parses: 0, strings_exhaustive: 0, by_kind: Default::default(), by_fault: Default::default(), distinct: Default::default(), violation: None, samples: vec![] }
+}
+
+fn check_c10(tier: &str, seed: u64, workers: usize, args: &[String]) -> i32 {
+    let t0 = Instant::now();
+    let runs: u64 = arg_val(args, "--runs").and_then(|s| s.parse().ok()).unwrap_or(if tier == "thorough" { 40_000 } else { 1_500 });
+    let doubles: u64 = if tier == "thorough" { 2_000 } else { 300 };
+    let known = load_known_findings();
+    let next = std::sync::atomic::AtomicU64::new(0);
+    let results = std::sync::Mutex::new(std::collections::BTreeMap::new());
+    std::thread::scope(|s| {
+        for _ in 0..workers {
+            s.spawn(|| loop {
+                let k = next.fetch_add(1, std::sync::atomic::Ordering::SeqCst);
+                if k >= runs {
+                    break;
+                }
+                let mut r = new_storage_result();
+                mssim::faultio::storage_run(seed, k, doubles, &mut r);
+                results.lock().unwrap().insert(k, r);
+            });
+        }
+    });
+    let results = results.into_inner().unwrap();
+    let mut tot = new_storage_result();
+    let mut exit = 0;
+    let mut n_viol = 0u64;
+    let mut seen = std::collections::BTreeSet::new();
+    let mut known_hits: std::collections::BTreeMap<String, u64> = Default::default();
+    for (k, r) in results {
+        tot.objects += r.objects;
+        tot.roundtrips += r.roundtrips;
+        tot.corrupted_parses += r.corrupted_parses;
+        tot.strings_exhaustive += r.strings_exhaustive;
+        for (a, b) in r.by_kind {
+            *tot.by_kind.entry(a).or_insert(0) += b;
+        }
+        for (a, b) in r.by_fault {
+            *tot.by_fault.entry(a).or_insert(0) += b;
+        }
+        tot.distinct.extend(r.distinct);
+        for s in r.samples {
+            if tot.samples.len() < 3 {
+                tot.samples.push(s);
+            }
+        }
+        if let Some((class, detail)) = r.violation {
+            if let Some(kf) = known.iter().find(|kf| kf.property == "C10" && class.starts_with(&kf.class_prefix) && kf.text_contains.as_ref().map(|t| detail.contains(t)).unwrap_or(true)) {
+                *known_hits.entry(format!("property=C10 {}", kf.what)).or_insert(0) += 1;
+                continue;
+            }
+            if !seen.insert(class.clone()) || n_viol >= 5 {
+                continue;
+            }
+            n_viol += 1;
+            let path = format!("{}/replays/C10-{}-{}.json", VERIF_DIR, seed, k);
+            let _ = std::fs::create_dir_all(format!("{}/replays", VERIF_DIR));
+            let j = serde_json::json!({"property": "C10", "engine": "faultio", "class": class, "violation": detail, "seed": seed, "run": k, "doubles": doubles, "kind": "storage", "input": ""});
+            let _ = std::fs::write(&path, serde_json::to_string_pretty(&j).unwrap());
+            println!("violation: property=C10 class={} run={}\n  {}", class, k, detail);
+            println!("VIOLATION property=C10 replay={}", path);
+            exit = 1;
+        }
+    }
+    for (k, n) in &known_hits {
+        println!("KNOWN-FINDING: {} (hit {} times)", k, n);
+    }
+    let wall = t0.elapsed().as_secs_f64();
+    let evaluations = tot.roundtrips + tot.corrupted_parses;
+    let ev = serde_json::json!({
+        "property_id": "C10", "tier": tier, "seed": seed, "level": "exploration",
+        "coverage": {
+            "evaluations": evaluations,
+            "distinct_nontrivial": tot.distinct.len(),
+            "rule": "storage mode of engine C: each run generates objects (descriptors with every key form incl. origins, xpubs, wildcards, hardened wildcards, multipath, tap trees; miniscripts per context; concrete and semantic policies; public and secret descriptor keys; wallet-policy templates), persists the string, optionally injects a corruption fault, and 'restarts' by parsing. One evaluation = one round-trip verdict or one corrupted-string parse verdict. distinct = distinct (kind x structural skeleton of the printed form); non-trivial = the object parsed and printed (skeleton includes at least one fragment or key expression).",
+            "samples": tot.samples,
+            "simulated_runs": runs,
+            "runs_per_hour": if wall > 0.0 { (runs as f64 / wall * 3600.0) as u64 } else { 0 },
+            "objects": tot.objects, "roundtrip_verdicts": tot.roundtrips, "corrupted_parse_verdicts": tot.corrupted_parses,
+            "strings_with_all_single_substitutions_enumerated": tot.strings_exhaustive,
+            "objects_by_kind": tot.by_kind, "faults_fired": tot.by_fault,
+            "fault_free_configuration": "the round-trip and fixed-point verdicts; it has no fault dimension (durability baseline)",
+            "components": {"real_code": ["all FromStr/Display impls, descriptor::checksum"], "stubs": ["simulated disk = a String; corruption injector"]},
+            "known_findings_hit": known_hits,
+        },
+        "assumptions": ["the harness's copy of the checksum input alphabet and its first group equals BIP380's", "sampling for 2 and 3-4 substitutions; exhaustive only for single substitutions on a subset of strings"],
+        "wall_s": wall, "violations": n_viol
+    });
+    let _ = std::fs::create_dir_all(format!("{}/evidence", VERIF_DIR));
+    let _ = std::fs::write(format!("{}/evidence/C10.json", VERIF_DIR), serde_json::to_string_pretty(&ev).unwrap());
+    println!("C10: {} runs, {} objects, {} round trips, {} corrupted parses, {:.1}s, exit {}", runs, tot.objects, tot.roundtrips, tot.corrupted_parses, wall, exit);
+    exit
+}
+
+fn check_c11(tier: &str, seed: u64, workers: usize, args: &[String]) -> i32 {
+    let t0 = Instant::now();
+    let shards: u64 = arg_val(args, "--shards").and_then(|s| s.parse().ok()).unwrap_or(if tier == "thorough" { 1600 } else { 64 });
+    let per: u64 = arg_val(args, "--count").and_then(|s| s.parse().ok()).unwrap_or(4000);
+    let exe = std::env::current_exe().unwrap();
+    let next = std::sync::atomic::AtomicU64::new(0);
+    let results = std::sync::Mutex::new(std::collections::BTreeMap::new());
+    let run_worker = |shard: u64, trace: bool| -> (Option<i32>, String) {
+        let cmd = format!("ulimit -v 6000000; VERIF_SEED={} exec timeout {} {} faultio-worker --shard {} --count {} {}", seed, if trace { 600 } else { 300 }, exe.display(), shard, per, if trace { "--trace" } else { "" });
+        match std::process::Command::new("sh").arg("-c").arg(cmd).output() {
+            Ok(o) => (o.status.code(), String::from_utf8_lossy(&o.stdout).to_string()),
+            Err(e) => (Some(-1), format!("spawn failed: {}", e)),
+        }
+    };
+    std::thread::scope(|s| {
+        for _ in 0..workers {
+            s.spawn(|| loop {
+                let k = next.fetch_add(1, std::sync::atomic::Ordering::SeqCst);
+                if k >= shards {
+                    break;
+                }
+                let r = run_worker(k, false);
+                results.lock().unwrap().insert(k, r);
+            });
+        }
+    });
+    let results = results.into_inner().unwrap();
+    let mut exit = 0;
+    let mut n_viol = 0u64;
+    let mut cases = 0u64;
+    let mut by_kind: std::collections::BTreeMap<String, u64> = Default::default();
+    let mut by_fault: std::collections::BTreeMap<String, u64> = Default::default();
+    let mut accepted: std::collections::BTreeMap<String, u64> = Default::default();
+    let mut distinct = 0u64;
+    let mut samples = vec![];
+    let known = load_known_findings();
+    let mut known_hits: std::collections::BTreeMap<String, u64> = Default::default();
+    for (shard, (code, out)) in &results {
+        let done = out.lines().find(|l| l.starts_with("DONE "));
+        if let (Some(0), Some(d)) = (code, done) {
+            if let Ok(v) = serde_json::from_str::<serde_json::Value>(&d[5..]) {
+                cases += v["cases"].as_u64().unwrap_or(0);
+                distinct += v["distinct"].as_u64().unwrap_or(0);
+                for (m, key) in [(&mut by_kind, "by_kind"), (&mut by_fault, "by_fault"), (&mut accepted, "accepted_by_parser")] {
+                    if let Some(o) = v[key].as_object() {
+                        for (k, n) in o {
+                            *m.entry(k.clone()).or_insert(0) += n.as_u64().unwrap_or(0);
+                        }
+                    }
+                }
+                if samples.len() < 3 {
+                    if let Some(s) = v["sample"].as_str() {
+                        samples.push(s.chars().take(300).collect::<String>());
+                    }
+                }
+            }
+            continue;
+        }
+        // abnormal: panic line, or abort / signal / timeout -> re-run with tracing to attribute
+        let (what, case_hex) = if let Some(p) = out.lines().find(|l| l.starts_with("PANIC ")) {
+            let mut it = p.splitn(3, ' ');
+            it.next();
+            it.next();
+            let rest = it.next().unwrap_or("");
+            let (msg, hex) = rest.rsplit_once(' ').unwrap_or((rest, ""));
+            (format!("panic: {}", msg), hex.to_string())
+        } else {
+            let (c2, o2) = run_worker(*shard, true);
+            let last = o2.lines().filter(|l| l.starts_with("CASE ")).last().unwrap_or("").to_string();
+            let hex = last.splitn(3, ' ').nth(2).unwrap_or("").to_string();
+            (format!("worker died (exit {:?} then {:?}): abort, signal, memory limit or timeout", code, c2), hex)
+        };
+        let class = format!("{}:{}", if what.starts_with("panic") { "panic" } else { "crash" }, case_hex.split(':').next().unwrap_or(""));
+        if let Some(kf) = known.iter().find(|kf| kf.property == "C11" && class.starts_with(&kf.class_prefix) && kf.text_contains.as_ref().map(|t| what.contains(t)).unwrap_or(true)) {
+            *known_hits.entry(format!("property=C11 {}", kf.what)).or_insert(0) += 1;
+            continue;
+        }
+        n_viol += 1;
+        if n_viol > 5 {
+            continue;
+        }
+        let path = format!("{}/replays/C11-{}-{}.json", VERIF_DIR, seed, shard);
+        let _ = std::fs::create_dir_all(format!("{}/replays", VERIF_DIR));
+        let j = serde_json::json!({"property": "C11", "engine": "faultio", "class": class, "violation": what, "seed": seed, "shard": shard, "case": case_hex});
+        let _ = std::fs::write(&path, serde_json::to_string_pretty(&j).unwrap());
+        println!("violation: property=C11 class={} shard={}\n  {}", class, shard, what);
+        let v: serde_json::Value = j;
+        if replay_faultio(&v, &path) == 1 {
+            exit = 1;
+        } else {
+            println!("HARNESS-ERROR: violation did not replay");
+            if exit == 0 {
+                exit = 2;
+            }
+        }
+    }
+    // engine A contribution: no actor panics in any simulated run (hostile adverts, corrupted PSBTs)
+    let a_runs = if tier == "thorough" { 200_000 } else { 6_000 };
+    let mut mon = props::mon_for("C11");
+    mon.corruption = true;
+    let cfg = ExploreCfg { seed, prop: "C11".into(), runs: a_runs, workers, bias: props::bias_for("C11", "corruption"), mon: mon.clone(), first_run: 0, keep_going: false };
+    let (agg, found, kh) = explore(&cfg, &known);
+    for (k, v) in kh {
+        *known_hits.entry(k).or_insert(0) += v;
+    }
+    for f in found {
+        n_viol += 1;
+        let (min_sc, min_v) = minimise(&f.outcome.scenario, "C11", &mon, &f.violation.class, &f.outcome.result.decisions);
+        let (sc, v) = match min_v {
+            Some(v) => (min_sc, v),
+            None => (f.outcome.scenario.clone(), f.violation.clone()),
+        };
+        let path = write_replay("C11", &sc, &v, true);
+        println!("violation: property=C11 class={} (engine A)\n  {}", v.class, v.detail);
+        println!("VIOLATION property=C11 replay={}", path);
+        exit = 1;
+    }
+    for (k, n) in &known_hits {
+        println!("KNOWN-FINDING: {} (hit {} times)", k, n);
+    }
+    let wall = t0.elapsed().as_secs_f64();
+    let ev = serde_json::json!({
+        "property_id": "C11", "tier": tier, "seed": seed, "level": "exploration",
+        "coverage": {
+            "evaluations": cases + agg.runs,
+            "distinct_nontrivial": distinct,
+            "rule": "wire mode of engine C (fault half of the property only; there is no schedule): valid artefacts of every kind (all FromStr inputs, scripts, (spk, scriptSig, witness) triples, PSBTs from every stage of fault-free simulated workflows, definite descriptors) are damaged by truncation, bit flips, byte insert/delete, segment duplication, splicing, special-character replacement and nesting/width amplification beyond the 402 limit, and fed to the matching entry points in subprocess workers under ulimit -v with a watchdog; panic, abort, signal or timeout is a violation. Plus engine A's global invariant: no actor panics in any simulated run with hostile capability advertisements and corrupted messages. distinct = distinct (kind x fault x entry points reached x input); non-trivial = the damaged input got past the first parser (some entry point beyond parsing ran).",
+            "samples": samples,
+            "wire_cases": cases, "cases_by_kind": by_kind, "faults_fired": by_fault, "cases_accepted_by_first_parser": accepted,
+            "worker_shards": shards, "engine_a_runs": agg.runs, "engine_a_faults_fired": agg.fired,
+            "runs_per_hour": if wall > 0.0 { ((cases + agg.runs) as f64 / wall * 3600.0) as u64 } else { 0 },
+            "components": {"real_code": ["every parser, script decoder, interpreter, PSBT updater/finalizer/extractor, planner"], "stubs": ["fault injector, subprocess watchdog"]},
+            "known_findings_hit": known_hits,
+        },
+        "assumptions": ["robustness testing under the fault-injection half of the family; inputs are those a storage or transport fault, a stale or a hostile peer can derive from valid artefacts, plus structured garbage", "debug assertions and overflow checks are enabled in the harness build, as in the repository's own test profile"],
+        "wall_s": wall, "violations": n_viol
+    });
+    let _ = std::fs::create_dir_all(format!("{}/evidence", VERIF_DIR));
+    let _ = std::fs::write(format!("{}/evidence/C11.json", VERIF_DIR), serde_json::to_string_pretty(&ev).unwrap());
+    println!("C11: {} wire cases in {} shards, {} engine-A runs, {:.1}s, exit {}", cases, shards, agg.runs, wall, exit);
+    exit
 }
